@@ -302,7 +302,7 @@ class Skel:
     def block(self, depth, in_loop):
         out = []
         for _ in range(self.draw(st.integers(1, 3 if depth < 2 else 2))):
-            kind = self.draw(st.sampled_from(["m", "m", "if", "if", "for", "while"] if depth < 3 else ["m"]))
+            kind = self.draw(st.sampled_from(["m", "m", "if", "if", "for", "while", "while_up"] if depth < 3 else ["m"]))
             if kind == "m":
                 out.append(self.marker())
             elif kind == "if":
@@ -324,6 +324,11 @@ class Skel:
                     tail = [f"if {v} == 0:", "    " + self.draw(st.sampled_from(["continue", "break"])), self.marker()]
                 out.append(f"for {v} in range({self.draw(st.integers(0, 3))}):")
                 out += ["    " + b for b in body + tail]
+            elif kind == "while_up":
+                # a counter reset to the type's default value right before its loop: inside an outer loop the reset line runs every time
+                w = f"u{depth}"
+                body, _ = self.arm(depth, True)
+                out += [f"{w} = 0", f"while {w} < {self.draw(st.integers(1, 2))}:", f"    {w} = {w} + 1"] + ["    " + b for b in body]
             else:
                 w = f"w{depth}"
                 body, _ = self.arm(depth, True)
